@@ -1,6 +1,7 @@
 package harness
 
 import (
+	"sort"
 	"bytes"
 	"encoding/json"
 	"errors"
@@ -387,6 +388,41 @@ func runLeakCase(c *Ctx, tc tblCase, seed int64) (vs []rsV, evals int) {
 		add("leak|table-reader-after-close|"+loaderNames[tc.Loader], fmt.Sprintf("the table reader (%s loader) was closed after %d scans but still open: handles %v mappings %v", loaderNames[tc.Loader], n, h, m))
 		return
 	}
+	// a table of the legacy format (no metadata file, records without checksums: the repository's own fixtures), scanned
+	// completely and partly, then closed
+	if src := legacyFixture(int(seed)); src != "" && seed%3 == 0 {
+		leg := filepath.Join(dir, "legacy")
+		if err := os.CopyFS(leg, os.DirFS(src)); err != nil {
+			panic(err)
+		}
+		evals++
+		Beat()
+		lrd, err := sstables.NewSSTableReader(sstables.ReadBasePath(leg), sstables.ReadWithKeyComparator(skiplist.BytesComparator{}), tblLoader(tc))
+		if err != nil {
+			add("legacy-reader-open-error|"+normErr(err), err.Error())
+			return
+		}
+		for i := 0; i < 3; i++ {
+			it, err := lrd.Scan()
+			if err != nil {
+				add("legacy-scan-error|"+normErr(err), err.Error())
+				return
+			}
+			for s := r.Intn(9); s > 0; s-- {
+				if _, _, err := it.Next(); err != nil {
+					break
+				}
+			}
+		}
+		if err := lrd.Close(); err != nil {
+			add("close-error|legacy|"+normErr(err), err.Error())
+			return
+		}
+		if h, m := w.OpenHandles(), w.OpenMappings(); len(h)+len(m) > 0 {
+			add("leak|legacy-table-reader-after-close|"+loaderNames[tc.Loader], fmt.Sprintf("the reader of a legacy-format table (%s loader) was closed after 3 scans but still open: handles %v mappings %v", loaderNames[tc.Loader], h, m))
+			return
+		}
+	}
 	// recordio reader abandoned mid-file, mmap reader, then Close
 	p := filepath.Join(dir, sstables.DataFileName)
 	fr, err := recordio.NewFileReaderWithPath(p)
@@ -635,3 +671,21 @@ func readersimReplay(c *Ctx, rf *ReplayFile) []Violation {
 }
 
 var _ = time.Now
+
+// legacyFixture returns one of the legacy-format table folders that the tree under test ships as test data ("" if it
+// has none).
+func legacyFixture(n int) string {
+	root := os.Getenv("VERIF_REPO")
+	if root == "" {
+		root = "/repo"
+	}
+	ds, _ := filepath.Glob(filepath.Join(root, "sstables", "test_files", "v0_compat", "*"))
+	if len(ds) == 0 {
+		return ""
+	}
+	sort.Strings(ds)
+	if n < 0 {
+		n = -n
+	}
+	return ds[n%len(ds)]
+}
